@@ -165,6 +165,14 @@ def main():
     shared = sorted(set(prog_fns) & set(sdk_fns))
     o.append("/-- for every method implemented on both sides: are the two bodies token-identical? -/")
     o.append("def sharedPoolFnBodyEq : List (String × Bool) :=\n  [" + ", ".join(f"({L.lstr(n)}, {str(prog_fns[n] == sdk_fns[n]).lower()})" for n in shared) + "]\n")
+    def helper(src, name):
+        fs = [f for f in src.fns() if f["name"] == name and f["body"]]
+        return src.text_of(*fs[0]["body"]) if len(fs) == 1 else None
+    hp, hs = helper(pr, "cancel_amounts"), helper(sp, "cancel_amounts")
+    o.append("/-- free helper `cancel_amounts(long, short)` used by the override: present on both sides with token-identical bodies? -/")
+    o.append(f"def cancelHelperBodyEq : Bool := {str(hp is not None and hp == hs).lower()}\n")
+    o.append("/-- does the SDK `Pool` override `checked_cancel_amounts` (else it inherits the trait default)? -/")
+    o.append(f"def sdkOverridesCancelAmounts : Bool := {str('checked_cancel_amounts' in sdk_fns).lower()}\n")
     o.append("end Gmx.Gen.Pools\n")
     L.write_if_changed("Pools.lean", "\n".join(o))
 
